@@ -172,6 +172,30 @@ def _cube_rotvec(idx):
     return sc.vector(list(map(float, ax * ang)), unit='rad')
 
 
+WL_DTYPES = ('float64', 'float32', 'int64', 'int32')
+# whole-number wavelengths (so that every dtype holds the same numbers): value, unit
+WL_SETS = {'angstrom': (1, 2, 3, 20), 'nm': (2, 1), 'm': ()}
+WL_LAYOUTS = ('scalar', 'dense', 'binned', 'graph')
+UNIT_LENGTHS = ('angstrom', 'nm', 'um', 'm')  # Q / wavelength in these, UB / B in their reciprocals: all 16 pairings
+UNIT_B = (0, 3, 4)  # cubic, triclinic, cond 1e6
+UNIT_R = (0, 5, 24, 27)
+UNIT_U = (0, 25)
+
+
+def _dtype_unit_cases():
+    out = []
+    for dtype in WL_DTYPES:
+        for lu in ('angstrom', 'nm'):
+            for layout in WL_LAYOUTS:
+                out.append({'kind': 'qdtype', 'dtype': dtype, 'lu': lu, 'layout': layout})
+    for qu in UNIT_LENGTHS:
+        for bu in UNIT_LENGTHS:
+            for b in UNIT_B:
+                for rep in ('quat', 'matrix'):
+                    out.append({'kind': 'hklunits', 'qu': qu, 'bu': bu, 'B': b, 'rep': rep})
+    return out
+
+
 def cases(tier):
     out = []
     if tier == 'quick':
@@ -183,7 +207,7 @@ def cases(tier):
             for u in (0, 5, 13, 24, 25, 26):
                 for b in range(N_B_QUICK):
                     out.append({'kind': 'hkl', 'R': r, 'rep': 'quat' if (r + u + b) % 3 else 'matrix', 'U': u, 'B': b})
-        return out
+        return out + _dtype_unit_cases()
     for perp in (0, 1):
         for lu in ('angstrom', 'nm', 'm'):
             for di in range(len(DIRS_DEEP)):
@@ -207,7 +231,7 @@ def cases(tier):
                         # B in 1/nm for every kernel-route case; alternating units for the directly given ub_matrix
                         bu = '1/nm' if ubsrc == 'kernel' or (r + u + b) % 2 else '1/angstrom'
                         out.append({'kind': 'hkl', 'deep': True, 'R': r, 'rep': rep, 'U': u, 'B': b, 'bu': bu, 'ub': ubsrc})
-    return out
+    return out + _dtype_unit_cases()
 
 
 # ---------------------------------------------------------------------------------------
@@ -238,6 +262,10 @@ def run_case(case, rec):
             _run_qvec(case, rec)
         elif case['kind'] == 'qint':
             _run_qint(case, rec)
+        elif case['kind'] == 'qdtype':
+            _run_qdtype(case, rec)
+        elif case['kind'] == 'hklunits':
+            _run_hklunits(case, rec)
         else:
             _run_hkl(case, rec)
     finally:
@@ -564,8 +592,8 @@ def _run_hkl(case, rec):
         judge(hv, q, '0-d')
         parts = tof.hkl_elements_from_hkl_vec(hkl_vec=h)
         rec.transitions += 1
-        if (float(parts['h'].value), float(parts['k'].value), float(parts['l'].value)) != hv:
-            rec.viol(SITE_HE, 'lossy_split', f'h,k,l = {parts} from {hv}')
+        if (float(parts['h'].value), float(parts['k'].value), float(parts['l'].value)) != hv or not (parts['h'].unit == parts['k'].unit == parts['l'].unit == h.unit):
+            rec.viol(SITE_HE, 'lossy_split', f'h,k,l = {parts} from {hv} [{h.unit}]')
         again = sc.spatial.as_vectors(parts['h'], parts['k'], parts['l'])
         if tuple(float(x) for x in again.value) != hv:
             rec.viol(SITE_HE, 'lossy_split', 'reassembled hkl differs')
@@ -731,6 +759,248 @@ def _hkl_deep_arrays(rec, case, ub, B, bmat, bu):
                 judge(tuple(float(x) for x in vals[k][j]), prod, q4[j], 'outer product of R and Q arrays', element=k, q_index=j)
 
 
+DT_BEAM_1 = (0.0, 0.0, 10.0)
+DT_BEAMS_2 = [(1.0, 0.0, 1.0), (0.0, 2.0, -1.0), (0.3, 0.2, 3.0), (0.0, 1e-6, 5.0)]
+_EPS32 = 2.0**-23
+
+
+def _run_qdtype(case, rec):
+    """Wavelength dtype alphabet {float64, float32, int64, int32} x layout {0-d, dense, binned, coordinate graph}."""
+    dtype, lu, layout = case['dtype'], case['lu'], case['layout']
+    ints = WL_SETS[lu]
+    rec.cls('wl_dtype_' + dtype)
+    rec.cls('wl_layout_' + layout)
+    qunit = sc.Unit('1/' + lu)
+    v1 = gc.vec(DT_BEAM_1, 'm')
+    nd = len(DT_BEAMS_2)
+    v2 = gc.vecs(DT_BEAMS_2, 'm', dim='det')
+    is_f32 = dtype == 'float32'
+    qtol = (4 * _EPS32 if is_f32 else 16 * EPS)
+    want = {(il, k): qvec.q_vec(float(li), DT_BEAM_1, DT_BEAMS_2[k]) for il, li in enumerate(ints) for k in range(nd)}
+    want_n = {key: hp.norm(w) for key, w in want.items()}
+
+    def judge(key, got, where, qs=None, out_dtype=None):
+        il, k = key
+        kk = 2 * math.pi / ints[il]
+        sub = {'lam': ints[il], 'unit': lu, 'dtype': dtype, 'layout': layout, 'det': k}
+        rec.states += 1
+        rec.nontrivial += 1
+        rec.evals += 1
+        rec.validated += 1
+        rec.observe(got)
+        err = max(abs(hp.mpf(g) - w) for g, w in zip(got, want[key], strict=True)) if all(math.isfinite(g) for g in got) else hp.mpf('inf')
+        if err > qtol * kk:
+            rec.viol(SITE_Q, 'q_vec_mismatch_wavelength_dtype', f'{where}: wavelength {ints[il]} {lu} as {dtype}: Q={list(got)}, (2pi/lambda)(e_i-e_f)='
+                     f'{[float(w) for w in want[key]]}; max |diff|={float(err):.3e} > {qtol * kk:.2e}', **sub)
+        if out_dtype is not None and not is_f32 and out_dtype != sc.DType.float64:
+            rec.viol(SITE_Q, 'result_dtype', f'{where}: wavelength dtype {dtype} gives Q of dtype {out_dtype}, expected float64', **sub)
+        if qs is not None:
+            nrm = math.sqrt(sum(g * g for g in got))
+            tol = 1e-12 * float(want_n[key]) + (8 * _EPS32 if is_f32 else 32 * EPS) * kk
+            rec.evals += 1
+            rec.cls('q_norm_judged')
+            if abs(nrm - qs) > tol:
+                rec.viol(SITE_Q, 'norm_vs_scalar_Q', f'{where}: wavelength {ints[il]} {lu} as {dtype}: |Q_vec|={nrm!r} but Q_from_wavelength(two_theta)={qs!r}; tol {tol:.2e}', **sub)
+
+    tt = bl.two_theta(incident_beam=v1, scattered_beam=v2)
+    if layout == 'scalar':
+        for il, li in enumerate(ints):
+            lam = sc.scalar(li, unit=lu, dtype=dtype)
+            comps = _q_call(lam, v1, v2)
+            qv = tof.Q_vec_from_Q_elements(Qx=comps[0], Qy=comps[1], Qz=comps[2])
+            qs = tof.Q_from_wavelength(wavelength=lam, two_theta=tt).to(unit=qunit, dtype='float64')
+            rec.transitions += 3
+            if qv.unit != qunit:
+                rec.viol(SITE_Q, 'wrong_unit', f'Q unit {qv.unit}, expected {qunit}', dtype=dtype)
+                continue
+            for k in range(nd):
+                judge((il, k), tuple(float(x) for x in qv.values[k]), '0-d wavelength', float(qs.values[k]), comps[0].dtype)
+            if dtype == 'int64':
+                # a plain Python int makes an int64 variable: sc.scalar(2, unit=...)
+                c2 = _q_call(sc.scalar(li, unit=lu), v1, v2)
+                rec.transitions += 1
+                for k in range(nd):
+                    judge((il, k), tuple(float(c.values[k]) for c in c2), 'Python-int wavelength')
+    elif layout == 'dense':
+        lam = sc.array(dims=['wavelength'], values=list(ints), unit=lu, dtype=dtype)
+        comps = _q_call(lam, v1, v2)
+        qv = tof.Q_vec_from_Q_elements(Qx=comps[0], Qy=comps[1], Qz=comps[2])
+        qs = tof.Q_from_wavelength(wavelength=lam, two_theta=tt).to(unit=qunit, dtype='float64').transpose(['wavelength', 'det']).values
+        rec.transitions += 3
+        vals = qv.transpose(['wavelength', 'det']).values
+        for il in range(len(ints)):
+            for k in range(nd):
+                judge((il, k), tuple(float(x) for x in vals[il][k]), 'dense wavelength', float(qs[il][k]), comps[0].dtype)
+        if dtype in ('int64', 'int32') and lu == 'angstrom':
+            ar = sc.arange('wavelength', 1, 4, unit=lu, dtype=dtype)  # 1, 2, 3
+            c2 = _q_call(ar, v1, v2)
+            rec.transitions += 1
+            cv = [c.transpose(['wavelength', 'det']).values for c in c2]
+            for il in range(3):
+                for k in range(nd):
+                    judge((il, k), tuple(float(c[il][k]) for c in cv), 'sc.arange wavelength')
+    elif layout == 'binned':
+        # detector k holds the events ints[(k + j) % n] for j < 1 + k % n, one detector is empty
+        n = len(ints)
+        ev = [[(k + j) % n for j in range((1 + k % n) if k != 1 else 0)] for k in range(nd)]
+        flat = [ints[i] for row in ev for i in row]
+        begin = np.cumsum([0, *[len(r) for r in ev][:-1]])
+        lam = sc.bins(dim='event', data=sc.array(dims=['event'], values=flat, unit=lu, dtype=dtype),
+                      begin=sc.array(dims=['det'], values=begin, unit=None, dtype='int64'),
+                      end=sc.array(dims=['det'], values=begin + np.asarray([len(r) for r in ev]), unit=None, dtype='int64'))
+        comps = _q_call(lam, v1, v2)
+        qv = tof.Q_vec_from_Q_elements(Qx=comps[0], Qy=comps[1], Qz=comps[2])
+        qs = tof.Q_from_wavelength(wavelength=lam, two_theta=tt)
+        rec.transitions += 3
+        rec.cls('wl_binned_empty_bin')
+        if qv.bins is None or qv.bins.unit != qunit:
+            rec.viol(SITE_Q, 'wrong_unit', f'binned Q_vec: unit {qv.bins.unit if qv.bins is not None else qv.unit}', dtype=dtype)
+            return
+        data = qv.bins.constituents['data'].values
+        qsd = qs.bins.constituents['data'].to(unit=qunit, dtype='float64').values
+        ddt = comps[0].bins.constituents['data'].dtype
+        pos = 0
+        for k in range(nd):
+            for i in ev[k]:
+                judge((i, k), tuple(float(x) for x in data[pos]), 'binned wavelength', float(qsd[pos]), ddt)
+                pos += 1
+    else:  # the coordinate graphs
+        from scippneutron.conversion.graph import beamline as beamline_graph
+
+        lam = sc.array(dims=['wavelength'], values=list(ints), unit=lu, dtype=dtype)
+        da = sc.DataArray(sc.ones(dims=['det', 'wavelength'], shape=[nd, len(ints)]), coords={'wavelength': lam, 'incident_beam': v1, 'scattered_beam': v2})
+        graph = {**beamline_graph.beamline(scatter=True), **tof_graph.elastic_Q_vec('wavelength'), **tof_graph.elastic_Q('wavelength')}
+        out = da.transform_coords(['Q_vec', 'Q'], graph=graph, rename_dims=False, keep_intermediate=True, keep_inputs=True)
+        rec.transitions += 1
+        rec.cls('graph_route')
+        vals = out.coords['Q_vec'].transpose(['wavelength', 'det']).values
+        qs = out.coords['Q'].to(unit=qunit, dtype='float64').transpose(['wavelength', 'det']).values
+        qx = out.coords['Qx'].transpose(['wavelength', 'det'])
+        for il in range(len(ints)):
+            for k in range(nd):
+                judge((il, k), tuple(float(x) for x in vals[il][k]), 'graph route', float(qs[il][k]), qx.dtype)
+                if float(qx.values[il][k]) != float(vals[il][k][0]):
+                    rec.viol(SITE_QV, 'lossy_reassembly', 'graph route: Qx differs from Q_vec.x', dtype=dtype)
+
+
+def _len_factor(unit):
+    return hp.F(hp.LENGTH[unit])
+
+
+def _run_hklunits(case, rec):
+    """Every pairing of the length unit of Q / wavelength with the length unit of UB / B: hkl carries a *scaled* dimensionless
+    unit; the defining relation must hold for the physical quantities, and h, k, l must reassemble to hkl_vec including the unit."""
+    qu, bu, bi, rep = case['qu'], case['bu'], case['B'], case['rep']
+    bname, bmat = B_MATS[bi]
+    q_unit, b_unit = sc.Unit('1/' + qu), sc.Unit('1/' + bu)
+    fq, fb = 1 / _len_factor(qu), 1 / _len_factor(bu)  # 1/unit -> 1/m
+    rec.cls('hkl_units_same' if qu == bu else 'hkl_units_mixed')
+    ang = hp.LENGTH['angstrom']
+    b_vals = bmat * float(hp.LENGTH[bu] / ang)  # the same lattice expressed in 1/bu
+    q_scale = float(hp.LENGTH[qu] / ang)
+    q_set = [tuple(x * q_scale for x in q) for q in Q_SET if any(q)]
+    B = sc.spatial.linear_transform(value=b_vals, unit=b_unit)
+    want_unit = q_unit / b_unit
+    mult = fq / fb  # exact factor of the scaled dimensionless unit (Fraction arithmetic in hp.F)
+
+    def physical_residual(rmat, ub_val, hv, q):
+        """|2 pi R UB hkl - Q| / |Q| in SI, hkl as a physical (plain) number = value x unit multiplier."""
+        a_mp = geom.matmul(rmat, [[x * fb for x in row] for row in geom.mat(ub_val)])
+        lhs = hp.scale(geom.matvec(a_mp, [hp.mpf(x) * mult for x in hv]), 2 * hp.PI)
+        qv = [hp.mpf(x) * fq for x in q]
+        return hp.norm(hp.sub(lhs, qv)), hp.norm(qv)
+
+    def check_split(hvar, parts, what, **sub):
+        rec.evals += 1
+        rec.validated += 1
+        ok_units = parts['h'].unit == parts['k'].unit == parts['l'].unit == hvar.unit
+        ok_vals = (np.array_equal(parts['h'].values, hvar.fields.x.values) and np.array_equal(parts['k'].values, hvar.fields.y.values)
+                   and np.array_equal(parts['l'].values, hvar.fields.z.values))
+        again = None
+        if ok_units and ok_vals:
+            again = sc.spatial.as_vectors(parts['h'], parts['k'], parts['l'])
+        if again is None or not sc.identical(again, hvar):
+            rec.viol(SITE_HE, 'lossy_split', f'{what}: hkl_vec has unit [{hvar.unit}] but h, k, l come back with [{parts["h"].unit}], [{parts["k"].unit}], [{parts["l"].unit}]'
+                     f' (values equal: {ok_vals}); reassembling them does not give hkl_vec back', q_unit=str(q_unit), b_unit=str(b_unit), **sub)
+        else:
+            rec.cls('split_reassemble_identical')
+        # as physical numbers
+        phys = [float(parts[c].to(unit='dimensionless', dtype='float64').values.ravel()[0]) for c in 'hkl']
+        first = [float(x) for x in np.asarray(hvar.values).reshape(-1, 3)[0]]
+        if any(abs(hp.mpf(p) - hp.mpf(f) * mult) > 4 * EPS * abs(hp.mpf(f) * mult) for p, f in zip(phys, first, strict=True)):
+            rec.viol(SITE_HE, 'split_changes_physical_value', f'{what}: h,k,l as plain numbers {phys} but hkl_vec {first} [{hvar.unit}] means {[float(hp.mpf(f) * mult) for f in first]}',
+                     q_unit=str(q_unit), b_unit=str(b_unit), **sub)
+
+    for ri in UNIT_R:
+        R = rot_variable(ri, rep)
+        rmat = geom.quat_to_matrix(R.value) if rep == 'quat' else geom.mat(R.value)
+        for ui in UNIT_U:
+            U = sc.spatial.linear_transform(value=rot_matrix(ui))
+            ub = tof.ub_matrix_from_u_and_b(u_matrix=U, b_matrix=B)
+            rec.transitions += 1
+            a = np.array([[float(x) for x in row] for row in geom.matmul(rmat, geom.mat(ub.value))])
+            cond = float(np.linalg.cond(a))
+            sub = {'R': ri, 'U': ui, 'B': bname, 'rep': rep}
+            Qa = gc.vecs(q_set, q_unit, dim='Q')
+            ha = tof.hkl_vec_from_Q_vec(Q_vec=Qa, ub_matrix=ub, sample_rotation=R)
+            rec.transitions += 1
+            if ha.unit != want_unit:
+                rec.viol(SITE_HKL, 'wrong_unit', f'Q in [{q_unit}], UB in [{b_unit}]: hkl unit [{ha.unit}], expected [{want_unit}]', **sub)
+                continue
+            for j, q in enumerate(q_set):
+                hv = tuple(float(x) for x in ha.values[j])
+                rec.states += 1
+                rec.nontrivial += 1
+                rec.evals += 1
+                rec.validated += 1
+                rec.cls('hkl_judged')
+                rec.observe(hv)
+                res, qn = physical_residual(rmat, ub.value, hv, q)
+                if not all(math.isfinite(x) for x in hv) or res > 64 * EPS * cond * qn:
+                    rec.viol(SITE_HKL, 'residual_mixed_units', f'Q [{q_unit}], UB [{b_unit}]: |2pi R UB hkl - Q| / |Q| = {float(res / qn):.3e} > {64 * EPS * cond:.3e} '
+                             f'(hkl={list(hv)} [{ha.unit}], Q={list(q)})', Q=list(q), **sub)
+            check_split(ha, tof.hkl_elements_from_hkl_vec(hkl_vec=ha), 'array of Q', **sub)
+            h0 = tof.hkl_vec_from_Q_vec(Q_vec=sc.vector(list(q_set[3]), unit=q_unit), ub_matrix=ub, sample_rotation=R)
+            check_split(h0, tof.hkl_elements_from_hkl_vec(hkl_vec=h0), '0-d Q', **sub)
+            rec.transitions += 4
+        # the coordinate graph: wavelength in the length unit of Q, B in 1/bu
+        lam_val = [1.8 * float(ang / hp.LENGTH[qu]), 0.5 * float(ang / hp.LENGTH[qu])]
+        b1 = (0.0, 0.0, 10.0)
+        b2s = [gc.beam_at_angle((0.0, 0.0, 1.0), gc.unit_dir((1.0, 0.3, 0.0)), a_, 2.0) for a_ in (0.3, 1.2, 2.9)]
+        U = sc.spatial.linear_transform(value=rot_matrix(UNIT_U[1]))
+        da = sc.DataArray(
+            sc.ones(dims=['pixel', 'wavelength'], shape=[3, 2]),
+            coords={'wavelength': sc.array(dims=['wavelength'], values=lam_val, unit=qu), 'incident_beam': gc.vec(b1, 'm'),
+                    'scattered_beam': gc.vecs(b2s, 'm', dim='pixel'), 'u_matrix': U, 'b_matrix': B, 'sample_rotation': R},
+        )
+        out = da.transform_coords(['hkl_vec', 'h', 'k', 'l', 'Q_vec', 'ub_matrix'], graph=tof_graph.elastic_hkl('wavelength'), keep_intermediate=True, keep_inputs=True, rename_dims=False)
+        rec.transitions += 1
+        rec.cls('graph_route')
+        hvec = out.coords['hkl_vec']
+        sub = {'R': ri, 'U': UNIT_U[1], 'B': bname, 'rep': rep, 'route': 'graph'}
+        if hvec.unit != want_unit or out.coords['Q_vec'].unit != q_unit:
+            rec.viol(SITE_HKL, 'wrong_unit', f'graph route: hkl unit [{hvec.unit}] / Q unit [{out.coords["Q_vec"].unit}]', **sub)
+            continue
+        qv = out.coords['Q_vec'].transpose(['pixel', 'wavelength']).values
+        hk = hvec.transpose(['pixel', 'wavelength']).values
+        ubv = out.coords['ub_matrix'].value
+        a = np.array([[float(x) for x in row] for row in geom.matmul(rmat, geom.mat(ubv))])
+        cond = float(np.linalg.cond(a))
+        for ip in range(3):
+            for il in range(2):
+                want_q = qvec.q_vec(lam_val[il], b1, b2s[ip])
+                g = tuple(float(x) for x in qv[ip][il])
+                _judge_q(rec, g, want_q, 2 * math.pi / lam_val[il], f'graph route, wavelength in {qu}', pixel=ip, lam=lam_val[il])
+                hv = tuple(float(x) for x in hk[ip][il])
+                rec.states += 1
+                rec.evals += 1
+                rec.validated += 1
+                res, qn = physical_residual(rmat, ubv, hv, g)
+                if res > 64 * EPS * cond * qn:
+                    rec.viol(SITE_HKL, 'residual_mixed_units', f'graph route: Q [{q_unit}], UB [{b_unit}]: relative residual {float(res / qn):.3e} > {64 * EPS * cond:.3e}', **sub)
+        check_split(hvec, {c: out.coords[c] for c in 'hkl'}, 'graph route', **sub)
+
+
 # ---------------------------------------------------------------------------------------
 # layout / reuse exploration shared by the kernel properties (props/layouts.py): every combination of operand layouts
 # (0-d, 1-d over either of two dims, 2-d, 2-d transposed) must equal the element-wise 0-d calls, also after every operand
@@ -759,4 +1029,14 @@ _DEEP_CLASSES = [
     'unit_m', 'wavelength_int64', 'incident_array', 'both_beams_same_dim', 'both_beams_outer', 'int_valued_beams', 'b_unit_1/nm',
     'b_unit_1/angstrom', 'ub_direct', 'U_array', 'R_U_Q_elementwise', 'R_Q_outer',
 ]
-REQUIRED_CLASSES = {'quick': list(REQUIRED_CLASSES), 'thorough': [*REQUIRED_CLASSES, *_DEEP_CLASSES]}
+_DTYPE_UNIT_CLASSES = [
+    *('wl_dtype_' + d for d in WL_DTYPES), *('wl_layout_' + x for x in WL_LAYOUTS), 'wl_binned_empty_bin', 'hkl_units_same', 'hkl_units_mixed',
+    'split_reassemble_identical',
+]
+RULE = RULE + (' Dtype/unit cases (both tiers): qdtype = wavelength dtype {float64, float32, int64, int32} x unit {angstrom, nm} x layout {0-d (+ Python int), '
+               'dense (+ sc.arange), binned with an empty bin, coordinate graph}, whole-number wavelengths 1, 2, 3, 20 angstrom / 2, 1 nm x 4 scattered beams; '
+               'hklunits = every pairing of {angstrom, nm, um, m} for Q / wavelength with their reciprocals for B / UB x 3 B x 2 representations of R, inside '
+               '4 R x 2 U x 11 Q (kernel route) and the hkl coordinate graph; hkl judged as a physical quantity (value x unit multiplier), h, k, l must '
+               'reassemble to an identical hkl_vec including the unit.')
+BOUND = {k: v + '; qdtype: 4 dtypes x 2 units x 4 layouts; hklunits: 4 x 4 unit pairings x 3 B x 2 representations' for k, v in BOUND.items()}
+REQUIRED_CLASSES = {'quick': [*REQUIRED_CLASSES, *_DTYPE_UNIT_CLASSES], 'thorough': [*REQUIRED_CLASSES, *_DEEP_CLASSES, *_DTYPE_UNIT_CLASSES]}
